@@ -467,6 +467,9 @@ def run(prop, units, scratch, tier, repo, only=None):
         u, h = job
         crate_dir, target = ctx[u['name']]
         to = int(h.get('timeout_s') or DEFAULT_TIMEOUT[tier if h['tier'] == 'thorough' else 'quick'])
+        # a loaded machine must not turn a passing harness into a time-out (= undecided, exit 2 on an unchanged tree):
+        # the per-harness figure is the expected cost; the kill timer is a multiple of it
+        to = int(to * float(os.environ.get('VERIF_TIMEOUT_FACTOR', '4')))
         cmd = _kani_cmd(h['name'], target, h['flags'], h['cbmc_args'])
         rc, out, secs = kani_lane._run(cmd, crate_dir, env, to, kani_lane.MEM_KB)
         c = kani_lane.classify_run(rc, out, secs, to, h)
